@@ -56,7 +56,7 @@ pub fn c15(rep: &mut Report, cfg: &Cfg) {
     let profile = cfg.profile.clone();
     let prof = if profile == "ovf" { 1u64 } else { 0 };
     // ---- (a) all first words x adversarial register files x placements x bus settings
-    let reps = cfg.n(3, 24);
+    let reps = cfg.n(3, 64);
     for w0 in 0..=0xffffu32 {
         work += 1;
         if !cfg.mine(work) {
@@ -108,7 +108,7 @@ pub fn c15(rep: &mut Report, cfg: &Cfg) {
     rep.exhaustive.push(format!("all 65 536 first instruction words ({} profile)", profile));
     // ---- (b) every implemented form with adversarial address registers / operands
     for (_, pat) in gen::FORMS {
-        for k in 0..cfg.share(cfg.n(600, 20_000)) {
+        for k in 0..cfg.share(cfg.n(600, 100_000)) {
             let mut f = Fields::random(&mut rng);
             f.abs = adv[k as usize % adv.len()];
             f.disp = *rng.pick(&adv);
@@ -229,12 +229,12 @@ pub fn c15(rep: &mut Report, cfg: &Cfg) {
         }
     }
     // ---- (d) random programs and jumps to unmapped / odd targets through the real run()
-    for _ in 0..cfg.share(cfg.n(400, 12_000)) {
+    for _ in 0..cfg.share(cfg.n(400, 60_000)) {
         let seed = rng.next();
         run_fuzz_program(rep, seed, prof);
     }
     // ---- (e) control-channel lines from a fuzzing grammar into a running run()
-    for _ in 0..cfg.share(cfg.n(200, 6_000)) {
+    for _ in 0..cfg.share(cfg.n(200, 30_000)) {
         let seed = rng.next();
         run_fuzz_lines(rep, seed, prof);
     }
